@@ -153,8 +153,9 @@ class Model:
             exp.uncalled.add(path)
             return None
         fdef = self.spec.fields[node.name]
-        if self.spec.objrepr == "map" and isinstance(obj, MapObj) and \
-                self.spec.behaviours.get((tname, node.name)) == "default":
+        if ((self.spec.objrepr == "map" and isinstance(obj, MapObj))
+                or (self.spec.objrepr == "sdict" and isinstance(obj, dict))) \
+                and self.spec.behaviours.get((tname, node.name)) == "default":
             # served by the default resolver's key lookup on a mapping-shaped
             # parent: no resolver body runs, nothing can be injected there
             exp.uncalled.add(path)
